@@ -13,9 +13,9 @@ import (
 
 func init() {
 	register(&propDef{
-		ID:    "C09",
-		Title: "The text normal form and preprocessing preserve meaning",
-		Run:   runC09,
+		ID:          "C09",
+		Title:       "The text normal form and preprocessing preserve meaning",
+		Run:         runC09,
 		Explanation: "Structural necessary conditions of a faithful text normal form, decided on SSA: (fieldtable) for every record type with both UnmarshalText and MarshalText, each struct field assigned from input field f[i] is read when output position i is written (counting separator writes), including flags that only guard a write such as the wildcard prefix; (prefix) every record prefix constant has a constructor case and the type it constructs prints that prefix first; (preproc) the preprocessor leaves a scanned line out only as blank/comment, as a '%' line after accumulating it, or by failing; SOA lines are re-serialised from the decoded record; (rangepoint) the ±96 text offset of range points is applied under the same condition in both directions. Byte-level round trips and the escaping of field contents are not decided.",
 	})
 }
@@ -778,7 +778,6 @@ func c09RangePoint(c *Ctx) {
 	b, okB := conds(mt, token.SUB)
 	c.Check(rule, "Rrangepoint|offset-conditions-agree", okA && okB && strings.Join(keysOf(a), ",") == strings.Join(keysOf(b), ",") && len(a) == 2, um.Pos(), fmt.Sprintf("+96 under %v; −96 under %v", keysOf(a), keysOf(b)))
 }
-
 
 // c09Numeric: a field the parser reads as a number is printed as a number.
 func c09Numeric(c *Ctx) {
